@@ -19,6 +19,8 @@ func checkC07(c *Ctx, r *Report) {
 	r.Assumptions = append(r.Assumptions, "the parse stack holds one entry per symbol of the viable prefix (C01)")
 	st := c.GetStaged()
 	stagedErrors(r, "C07", st)
+	// the Dollar window and the returned *ValType point into the stack array: it must belong to one parse
+	c15FreshStackAll(r, "C07.b←C15.c", st)
 	type backend struct {
 		name, recvMode string
 		sh             Shape
@@ -54,7 +56,7 @@ func checkC07(c *Ctx, r *Report) {
 				if sk.V.Name != "go/global/dense" {
 					continue
 				}
-				if rf := sk.FuncDecl("", "ReduceFunc"); rf != nil && strings.Contains(printNode(sk.Fset, rf.Body), "topIndex := StackPointer - 1") {
+				if rf := sk.FuncDecl("", "ReduceFunc"); rf != nil && reduceFuncFrame(sk, rf) == "" {
 					a = -1
 				}
 			}
